@@ -38,6 +38,18 @@ ASSIGN = {
 }
 
 
+# positional (non-reference) fields: (record type, version) -> field -> (valid, invalid)
+POSASSIGN = {
+    ("S", "gfa1"): {"sequence": (["ACGT", "*", "acgtN"], ["AC GT", "1*", "A\tC"])},
+    ("S", "gfa2"): {"sequence": (["ACGT", "*"], ["AC GT", "A\tC"]), "slen": ([7, "12"], ["x", "1 2", "-"])},
+    ("G", "gfa2"): {"disp": ([10, "-4"], ["x", "1.5"]), "var": ([3, "*"], ["x", "1.5"])},
+    ("F", "gfa2"): {"f_beg": ([0, "3"], ["x", "-1"]), "alignment": (["*", "3M"], ["3Q", "M", "1,x"])},
+    ("L", "gfa1"): {"overlap": (["3M", "*"], ["3Q", "M3"]), "from_orient": (["+", "-"], ["x", "++"])},
+    ("C", "gfa1"): {"pos": ([3, "0"], ["x", "-1"]), "overlap": (["3M", "*"], ["3Q"])},
+    ("E", "gfa2"): {"alignment": (["*", "3M", "1,2"], ["3Q", "M"]), "beg1": ([0, "0"], ["x", "$"])},
+}
+
+
 def pyval(v):
     from .c20 import pyval as pv
     return pv(v)
@@ -74,7 +86,13 @@ def gen(streams, tier, i):
         return {"cfg": {"version": doc["version"], "arm": arm}, "lines": lines, "ops": ops}
     ar = streams.get("history")
     lines = list(doc["lines"])
+    if ar.random() < 0.6:
+        # the lines arrive in a scheduled order (which branch of add_line creates a line depends on it)
+        lines, _m = hist.schedule(streams.get("schedule"), lines)
     ops = []
+    for _ in range(ar.randint(0, 3)):
+        ops.append({"op": "posassign", "li": ar.randrange(1000), "fi": ar.randrange(1000), "valid": ar.random() < 0.4,
+                    "vi": ar.randrange(1000), "reads": ar.randint(0, 2)})
     for _ in range(ar.randint(1, 5)):
         dt = ar.choice(sorted(ASSIGN))
         valid = ar.random() < 0.4
@@ -127,6 +145,14 @@ def run_history(scn, st):
                                  frame=[o.frame for o in outs if not o.ok][0])
         if not kinds[0]:
             continue
+        for lvl, w in enumerate(ws):
+            for l in ob.listed_lines(w.gfa):
+                if l.virtual or l.record_type == "#":
+                    continue
+                if l.vlevel != lvl:
+                    raise core.Violation("line-level-differs",
+                                         "Gfa(vlevel=%d): line %r was created with vlevel %r" %
+                                         (lvl, ob.line_text(l), l.vlevel), rt=l.record_type, level=lvl)
         texts = []
         for w in ws:
             try:
@@ -188,8 +214,21 @@ def run_assign(scn, st):
         if not o.ok:
             return
         reps.append(o.value)
+    for lvl, g in enumerate(reps):
+        # every line of a Gfa works at the Gfa's validation level
+        st.count("oracle.line_level")
+        for l in ob.listed_lines(g):
+            if l.virtual or l.record_type == "#":
+                continue      # placeholders and comments carry nothing a validation level could govern
+            if l.vlevel != lvl:
+                raise core.Violation("line-level-differs",
+                                     "Gfa(vlevel=%d): line %r was created with vlevel %r" % (lvl, ob.line_text(l), l.vlevel),
+                                     rt=l.record_type, level=lvl)
     for n, op in enumerate(scn["ops"]):
         st.step()
+        if op["op"] == "posassign":
+            posassign(reps, op, version, st)
+            continue
         st.count("op.assign")
         x = pyval(op["value"])
         tag, dt = op["tag"], op["dtype"]
@@ -273,6 +312,67 @@ def run_assign(scn, st):
             if texts[lvl] != texts[0]:
                 raise core.Violation("levels-diverge-text", "after assignment %d the replicas differ (level %d)" % (n, lvl),
                                      level=lvl, op="assign")
+
+
+def posassign(reps, op, version, st):
+    """valid / invalid assignment to a positional, non-reference field of a stand-alone line"""
+    st.count("op.posassign")
+    for lvl, g in enumerate(reps):
+        cands = [l for l in ob.listed_lines(g) if (l.record_type, version) in POSASSIGN and not l.virtual]
+        if not cands:
+            return
+        src = cands[op["li"] % len(cands)]
+        table = POSASSIGN[(src.record_type, version)]
+        field = sorted(table)[op["fi"] % len(table)]
+        pool = table[field][0 if op["valid"] else 1]
+        x = pool[op["vi"] % len(pool)]
+        oo = core.call(gfapy.Line, ob.line_text(src), vlevel=lvl, version=version)
+        if not oo.ok:
+            return
+        line = oo.value
+        a = core.call(line.set, field, x)
+        st.count("oracle.surfacing")
+        st.count("probe.valid_assignment" if op["valid"] else "probe.invalid_assignment")
+        st.state(digest(["posassign", src.record_type, field, repr(x), lvl, a.ok]))
+        if op["valid"]:
+            if not a.ok:
+                raise core.Violation("valid-assignment-rejected", "level %d: %s.%s = %r raised %s: %s" %
+                                     (lvl, src.record_type, field, x, a.excname, str(a.exc)[:200]), dtype=field, level=lvl,
+                                     exc=a.excname, frame=a.frame)
+            f = core.call(line.field_to_s, field)
+            v = core.call(line.validate_field, field)
+            s = core.call(str, line)
+            if not (f.ok and v.ok and s.ok) or "# INVALID" in (s.value or ""):
+                raise core.Violation("valid-assignment-reported", "level %d: valid %s.%s = %r reported invalid" %
+                                     (lvl, src.record_type, field, x), dtype=field, level=lvl)
+            continue
+        if lvl == 3 and a.ok:
+            raise core.Violation("invalid-not-reported-at-assignment", "level 3: %s.%s = %r was accepted" %
+                                 (src.record_type, field, x), dtype=field, level=3)
+        if not a.ok:
+            continue
+        for _ in range(op["reads"]):
+            core.call(line.get, field)
+        if lvl == 2:
+            f = core.call(line.field_to_s, field)
+            if f.ok:
+                raise core.Violation("invalid-not-reported-at-write", "level 2: %s.%s = %r: field_to_s wrote %r" %
+                                     (src.record_type, field, x, f.value), dtype=field, level=2)
+            st.count("probe.surfaced_at_write")
+            s = core.call(str, line)
+            if s.ok and "# INVALID" not in s.value:
+                raise core.Violation("invalid-not-reported-at-write",
+                                     "level 2: %s.%s = %r: str(line) wrote %r without raising or flagging" %
+                                     (src.record_type, field, x, s.value), dtype=field, level=2)
+        v = core.call(line.validate_field, field)
+        if v.ok:
+            raise core.Violation("invalid-not-reported-by-validate", "level %d: %s.%s = %r: validate_field passes" %
+                                 (lvl, src.record_type, field, x), dtype=field, level=lvl)
+        v2 = core.call(line.validate)
+        if v2.ok:
+            raise core.Violation("invalid-not-reported-by-validate", "level %d: %s.%s = %r: line.validate() passes" %
+                                 (lvl, src.record_type, field, x), dtype=field, level=lvl)
+        st.count("probe.surfaced_at_validate")
 
 
 def run(scn, st):
